@@ -233,11 +233,18 @@ package parser2
 
 // Optimize rewrites children of AST nodes in place; the nodes of a parse are objects of that parse, so no caller of
 // a parse function can observe it in anything it held before (the frame of the parse functions excludes AST nodes)
+// what is verified: an optimizer that panics is survived and the unoptimized AST is returned (C04). The frame stays
+// trusted (option frame-trusted): the children are rewritten in place through AST.Optimize.
 //@ func Optimize
-//@   property C03
-//@   ensures ast != nil ==> astRet != nil
+//@   property C03, C04
+//@   option models-recover
+//@   option frame-trusted
+//@   requires ast != nil && optimizer != nil
+//@   ensures[ast-or-original] result != nil
 //@   assigns nothing
-//@   trusted
+//@ interface-contract Optimizer.Optimize
+//@   option no-impl-check
+//@   ensures result != nil
 
 //@ interface-contract NumberParser.ParseNumber
 //@   option no-impl-check
